@@ -448,7 +448,7 @@ class Ctx:
                     return mo is not None and (canon(mo) if canon else mo) != (canon(ro) if canon else ro)
                 lines = self.shrink_case(sub, harness_args, lines, differs, timeout, removable=removable)
             # on a spec-exact stream a disagreement is a failing input; so is an input on which the real code dies or hangs
-            self.problem("correspondence", name, lines, "case %s: %s" % (cid, d), bool(spec_exact), real=r, model=m)
+            self.problem("correspondence", name, lines, "case %s: %s" % (cid, d), bool(spec_exact) or why is not None, real=r, model=m)
         if len(self.samples) < 6 and cases:
             cid, lines = cases[min(len(cases) - 1, 1)]
             self.samples.append({"stream": name, "input": lines[:12], "real_output": (real.get(cid) or [])[:8]})
